@@ -300,7 +300,7 @@ def run_history(res, rng, model):
             return ("aln", len(next(iter(newaln.values()))))
         if kind == "length":
             e = op_rng.choice(enames)
-            t = round(op_rng.uniform(0.01, 1.2), 4)
+            t = 0.0 if op_rng.random() < 0.25 else round(op_rng.uniform(0.01, 1.2), 4)  # exact zero is in bounds
             lf.set_param_rule("length", edge=e, init=t)
             return ("length", e, t)
         return None
@@ -324,6 +324,30 @@ def run_history(res, rng, model):
             res.evals += 1
             res.witness(exc_mechanism(f"C07/history/{ops_done[-1] if ops_done else 'op'}", e), model=model, history=history, error=repr(e)[:300], base=prob_brief(prob))
             break
+        # a rule that names a value must be reflected by the value the function reports for that scope
+        binding = {}  # (par, edge) -> (value, op kind); later rules override earlier ones, other rule kinds unbind
+        for d_ in (history[-1][1] if history[-1][0] == "postponed" else [history[-1]]):
+            if d_[0] == "length":
+                binding[("length", d_[1])] = (d_[2], "length")
+            elif d_[0] == "edges":
+                for e_ in d_[2]:
+                    binding[(d_[1], e_)] = (d_[3], "edges")
+            elif d_[0] in ("init", "const"):
+                for e_ in enames:
+                    binding[(d_[1], e_)] = (d_[2], d_[0])
+            elif len(d_) > 1:  # any other rule on that parameter (independent/clade/bounds/unconst) may move values
+                for k_ in [k_ for k_ in binding if k_[0] == d_[1]]:
+                    del binding[k_]
+        for (par_, e_), (v_, kind_) in binding.items():
+            try:
+                got_ = float(lf.get_param_value(par_, edge=e_))
+            except Exception:  # noqa: BLE001 - value differs across bins/loci: not expressible by one scope
+                continue
+            res.evals += 1
+            res.count("reported-value-checked")
+            if abs(got_ - v_) > 1e-12 * max(1.0, abs(v_)):
+                res.witness(f"C07/history/rule-value-not-applied/{kind_}", model=model, par=par_, edge=e_, requested=v_, reported=got_, history=history, base=prob_brief(prob))
+                break
         # observe + decide
         try:
             live = float(lf.lnL)
